@@ -116,7 +116,7 @@ func (b *bmcSys) predHeap() map[*Object]Value {
 func (b *bmcSys) check() {
 	f := b.f
 	m := b.setup
-	b.now = b.newState("now", term.Int, f.IntC(0))
+	b.now = b.newState("now", term.BV(clockW), f.BVC(clockW, 0))
 	b.panicVar = b.newState("panic", term.Bool, f.False())
 	b.clock = b.job.Params["clock"]
 	if len(m.procs) == 0 {
@@ -134,6 +134,9 @@ func (b *bmcSys) check() {
 	}
 	for _, c := range b.w.Chans {
 		b.chanState(c)
+	}
+	for _, ar := range b.w.Arenas {
+		ar.Next = b.newState("arena."+ar.Name+".next", term.Int, f.IntC(0))
 	}
 	for _, o := range b.w.Objs {
 		b.symbolizeObject(m, o)
@@ -443,14 +446,15 @@ func (b *bmcSys) unrollAndSolve() {
 		}
 		u.prevLive = liveNow
 		if tick >= 0 {
-			d := f.Var(fmt.Sprintf("tick.delta@%d", k), term.Int)
+			d := f.Var(fmt.Sprintf("tick.delta@%d", k), term.BV(clockW))
 			is := f.Eq(sch, f.IntC(int64(tick)))
-			assert(f.Implies(is, f.ILt(f.IntC(0), d)))
+			assert(f.Implies(is, f.ULt(f.BVC(clockW, 0), d)))
+			assert(f.ULe(d, f.BVC(clockW, 4096))) // 24-bit clock, ticks <= 4096, K <= a few hundred steps: no wrap-around
 			if b.clock == 2 {
 				// urgent clock: only when nothing else can move, and exactly to the earliest deadline
 				assert(f.Implies(is, sub(b.urgentGuard(d))))
 			}
-			writes[b.now] = append(writes[b.now], wr{tick, f.IAdd(u.cur[b.now], d)})
+			writes[b.now] = append(writes[b.now], wr{tick, f.Add(u.cur[b.now], d)})
 			u.stepInputs[k] = append(u.stepInputs[k], d)
 		}
 		for v, ws := range writes {
@@ -620,11 +624,11 @@ func (b *bmcSys) urgentGuard(d *term.T) *term.T {
 		if o.name == "timer" {
 			at := f.Eq(o.loc.proc.pc, f.IntC(int64(o.loc.id)))
 			dl := b.chanState(o.chans[0]).deadline
-			dls = append(dls, f.Implies(at, f.ILe(f.IAdd(b.now, d), dl)))
+			dls = append(dls, f.Implies(at, f.ULe(f.Add(b.now, d), dl)))
 		}
 		if o.name == "wake" {
 			at := f.Eq(o.loc.proc.pc, f.IntC(int64(o.loc.id)))
-			dls = append(dls, f.Implies(at, f.ILe(f.IAdd(b.now, d), o.loc.proc.sleepVar(b))))
+			dls = append(dls, f.Implies(at, f.ULe(f.Add(b.now, d), o.loc.proc.sleepVar(b))))
 		}
 	}
 	// now+d must reach at least one deadline exactly: since now+d <= every pending
@@ -633,10 +637,10 @@ func (b *bmcSys) urgentGuard(d *term.T) *term.T {
 	for _, o := range b.outcomes {
 		at := f.Eq(o.loc.proc.pc, f.IntC(int64(o.loc.id)))
 		if o.name == "timer" {
-			hit = append(hit, f.And(at, f.Eq(f.IAdd(b.now, d), b.chanState(o.chans[0]).deadline)))
+			hit = append(hit, f.And(at, f.Eq(f.Add(b.now, d), b.chanState(o.chans[0]).deadline)))
 		}
 		if o.name == "wake" {
-			hit = append(hit, f.And(at, f.Eq(f.IAdd(b.now, d), o.loc.proc.sleepVar(b))))
+			hit = append(hit, f.And(at, f.Eq(f.Add(b.now, d), o.loc.proc.sleepVar(b))))
 		}
 	}
 	return f.And(f.Not(f.Or(en...)), f.And(dls...), f.Or(hit...))
@@ -645,6 +649,8 @@ func (b *bmcSys) urgentGuard(d *term.T) *term.T {
 // decode reads the schedule and the inputs out of the model.
 func (b *bmcSys) decode(u *unroller, label string, bad *term.T) *Violation {
 	v := &Violation{Label: label, Detail: "BMC counterexample"}
+	choiceVals := map[string]string{}
+	choiceCnt := map[string]int{}
 	vals, err := b.s.Values(u.sch)
 	if err != nil {
 		b.res.Unknown = append(b.res.Unknown, "decode: "+err.Error())
@@ -657,6 +663,10 @@ func (b *bmcSys) decode(u *unroller, label string, bad *term.T) *Violation {
 		}
 		if id < len(b.trans) {
 			v.Trace = append(v.Trace, fmt.Sprintf("%02d %s", k, b.trans[id].label))
+			for _, c := range b.trans[id].choices {
+				choiceVals[fmt.Sprintf("%s#%d", c[0], choiceCnt[c[0]])] = c[1]
+				choiceCnt[c[0]]++
+			}
 		} else {
 			v.Trace = append(v.Trace, fmt.Sprintf("%02d clock tick", k))
 		}
@@ -676,12 +686,16 @@ func (b *bmcSys) decode(u *unroller, label string, bad *term.T) *Violation {
 	mv, mu, err := ModelOf(b.f, b.s, vars, apps)
 	if err != nil {
 		b.res.Unknown = append(b.res.Unknown, "decode: "+err.Error())
+		fmt.Fprintln(os.Stderr, "decode error:", err)
 	}
 	v.Vals, v.UFs = mv, mu
 	if v.Vals == nil {
 		v.Vals = map[string]string{}
 	}
 	for k, c := range b.setup.choiceLog {
+		v.Vals[k] = c
+	}
+	for k, c := range choiceVals {
 		v.Vals[k] = c
 	}
 	return v
